@@ -14,6 +14,13 @@
      Component.setTemperature(t)     action SetTemperature : T := t ; numberDensities *= reduction(prevT, t)
      Component.setDimension(key, val, retainLink, cold)      action SetDim (with its refusal)
      Component.setLink(key, other, otherKey)                 action SetLink
+     Component.__copy__  (copy.copy(component))              action Copy : the links are taken off, the component is
+                                               deep-copied (parent dropped by __getstate__), and the SAME link objects are
+                                               put back on the original and on the duplicate -- the duplicate follows the
+                                               same live neighbours; everything else (temperatures, dimensions, densities,
+                                               a private copy of the material) is duplicated and then independent
+     a ramp: many setTemperature calls through temperatures that are not in the table, ending at a table
+     temperature                                             action Ramp (see Composes)
      Component.getDimension(key, Tc=None, cold=False)        operator Q  (links are resolved at read time,
                                                _DimensionLink.resolveDimension passes Tc and cold through)
      getArea / getVolume / getMass / getNumberDensities      observation operators AreaQ, MPH, nd
@@ -46,6 +53,15 @@
      the code and cannot come out of a blueprint).  SetLink stands for setLink() followed by clearLinkedCache():
      setLink alone leaves a previously cached volume in place (armi links dimensions while blocks are built or
      converted, before volumes are asked for); getVolume() after a bare setLink is not part of the statement.
+   * Temperature tables contain exact range ends, exactly 0.0 degC where that is inside the range, and pairs that
+     are only a few hundredths of a degree apart ("T and T + epsilon"); to the model they are just distinct indices
+     (the code's own tolerance for "same temperature" is 1e-10 degC).  Ramp(c, t, k) stands for k calls of
+     setTemperature in steps of 0.05-0.09 degC through temperatures outside the table, ending at table temperature
+     t: every intermediate temperature is one more abstract atom, and Composes (checked by TLC for arbitrary atoms)
+     is the algebraic reason why all of them cancel, so the modelled effect is that of the direct jump; the adapter
+     really performs the k calls and the end state must equal the model's.
+   * The duplicate made by Copy is component 3; it has the material of its source (same atoms), it is put into the same
+     block (as armi does when it splits a component), one duplicate per behaviour.  Nothing is linked TO the duplicate.
    * Temperatures: both components use one table of NT distinct temperatures (index t means the same number of
      degrees for both), because a temperature passed explicitly to getDimension travels through a link to the
      other component; the table lies in the intersection of the two materials' valid ranges.
@@ -59,22 +75,26 @@ CONSTANTS NT,            \* temperature indices 1..NT (distinct temperatures ins
           MaxLevel,
           KindChoices,   \* set of <<kind of component 1, kind of component 2>>
           TempChoices,   \* set of <<Tin1, Thot1, Tin2, Thot2>> at construction
-          LinkPairs      \* set of <<c, d, c2, d2>> : dimension d of c may be linked to dimension d2 of c2
+          LinkPairs,     \* set of <<c, d, c2, d2>> : dimension d of c may be linked to dimension d2 of c2
+          RampSteps      \* numbers of tiny steps a Ramp may take
 
-Comp      == 1..2
+Base      == 1..2                                \* the two constructed components
+Comp      == 1..3                                \* 3 = the duplicate made by Copy (exists iff src # 0)
 Temp      == 1..NT
 Dim       == {"e0", "e1", "e2", "n0", "n"}
 Expanding == {"e0", "e1", "e2"}                 \* THERMAL_EXPANSION_DIMS: every length of the shape
 MutDim    == {"e1", "e2", "n"}
 Kinds     == {"solid", "inert", "fluid", "void", "custom"}
 NA        == 2 * NT
-Atom(c, t) == (c - 1) * NT + t
 Zero      == MZero
-U(c, t)   == MUnit(Atom(c, t))
 
-VARIABLES kind, Tin, T0, T, p, nd, act, err
-state == <<kind, Tin, T0, T, p, nd>>
-Vars  == [kind |-> kind, Tin |-> Tin, T0 |-> T0, T |-> T, p |-> p, nd |-> nd]
+VARIABLES kind, Tin, T0, T, p, nd, src, act, err
+state == <<kind, Tin, T0, T, p, nd, src>>
+Vars  == [kind |-> kind, Tin |-> Tin, T0 |-> T0, T |-> T, p |-> p, nd |-> nd, src |-> src]
+Live  == IF src = 0 THEN Base ELSE Comp
+Orig(c) == IF c = 3 THEN (IF src = 0 THEN 1 ELSE src) ELSE c     \* whose material / table values a component has
+Atom(c, t) == (Orig(c) - 1) * NT + t
+U(c, t)   == MUnit(Atom(c, t))
 
 (* ---------------------------------- material.py ---------------------------------- *)
 \* exponent vector of 1 + linearExpansionFactor(Tc = tc, T0 = t0)
@@ -95,7 +115,7 @@ TEF(c, tc, t0) == IF NoExpansion(c) THEN Zero ELSE OnePlusDLL(c, tc, t0)
 
 Refused == [r |-> "RuntimeError"]
 Nominal(c, d) == [k |-> "v", bc |-> c, bd |-> d, b |-> 0, e |-> Zero]
-P(c, d) == IF d \in MutDim THEN p[c][d] ELSE Nominal(c, d)
+P(c, d) == IF d \in MutDim THEN p[c][d] ELSE Nominal(Orig(c), d)
 
 \* getDimension(d, Tc = tc (0 = None), cold)
 RECURSIVE Q(_, _, _, _)
@@ -127,8 +147,10 @@ MPH(c) == LET a == AreaQ(c) IN MPHof(c, a)
 \* printing: exponent vectors unpacked to arrays over the atoms (c,t) -> index (c-1)*NT+t
 Pr(q) == IF q.r = "ok" THEN [q EXCEPT !.e = MVec(q.e, NA)] ELSE q
 Obs == [c \in Comp |->
+          IF c \notin Live THEN [live |-> FALSE] ELSE
           LET a == AreaQ(c) IN
-          [T    |-> T[c],
+          [live |-> TRUE,
+           T    |-> T[c],
            tef  |-> Pr(TEFQ(c)),
            nd   |-> MVec(nd[c], NA),
            hot  |-> [d \in Dim |-> Pr(Hot(c, d))],
@@ -144,10 +166,19 @@ Refuse(e, a) == UNCHANGED state /\ err' = e /\ act' = a
 
 \* setTemperature: prevTemp, T = T, t ; changeNDensByFactor(reduction(prevTemp, t)) ; clearLinkedCache()
 SetTemperature(c, t) ==
+    /\ c \in Live
     /\ T'  = [T EXCEPT ![c] = t]
     /\ nd' = [nd EXCEPT ![c] = MAdd(@, DensityReduction(c, T[c], t))]
-    /\ UNCHANGED <<kind, Tin, T0, p>>
+    /\ UNCHANGED <<kind, Tin, T0, p, src>>
     /\ Ok([n |-> "SetTemperature", c |-> c, t |-> t])
+
+\* k calls of setTemperature through temperatures outside the table, the last one to table temperature t (Composes)
+Ramp(c, t, k) ==
+    /\ c \in Live /\ k \in RampSteps
+    /\ T'  = [T EXCEPT ![c] = t]
+    /\ nd' = [nd EXCEPT ![c] = MAdd(@, DensityReduction(c, T[c], t))]
+    /\ UNCHANGED <<kind, Tin, T0, p, src>>
+    /\ Ok([n |-> "Ramp", c |-> c, t |-> t, k |-> k])
 
 \* setDimension(d, value(c,d,v), retainLink=retain, cold=cold)
 SetDim(c, d, v, cold, retain) ==
@@ -157,13 +188,13 @@ SetDim(c, d, v, cold, retain) ==
         td  == IF fwd THEN x.d ELSE d
         sc  == ~cold /\ td \in Expanding            \* val /= getThermalExpansionFactor() of the component written to
         a   == [n |-> "SetDim", c |-> c, d |-> d, v |-> v, cold |-> cold, retain |-> retain]
-    IN /\ d \in MutDim
+    IN /\ d \in MutDim /\ c \in Live
        /\ retain => x.k = "l"                       \* retainLink on an unlinked dimension is the plain call
        /\ IF sc /\ TEFRefused(tc, T[tc], Tin[tc])
           THEN Refuse("RuntimeError", a)            \* raised before self.p[key] = val
           ELSE /\ p' = [p EXCEPT ![tc][td] = [k |-> "v", bc |-> c, bd |-> d, b |-> v,
                                               e |-> IF sc THEN MNeg(TEF(tc, T[tc], Tin[tc])) ELSE Zero]]
-               /\ UNCHANGED <<kind, Tin, T0, T, nd>>
+               /\ UNCHANGED <<kind, Tin, T0, T, nd, src>>
                /\ Ok(a)
 
 RECURSIVE Reaches(_, _, _, _, _)
@@ -172,53 +203,67 @@ Reaches(c, d, c2, d2, n) ==
     \/ c = c2 /\ d = d2
     \/ n > 0 /\ d \in MutDim /\ p[c][d].k = "l" /\ Reaches(p[c][d].c, p[c][d].d, c2, d2, n - 1)
 
+\* the duplicate may be linked where its source may; nothing links to the duplicate
 SetLink(c, d, c2, d2) ==
-    /\ <<c, d, c2, d2>> \in LinkPairs
+    /\ c \in Live /\ c2 \in Base /\ <<Orig(c), d, c2, d2>> \in LinkPairs
     /\ ~Reaches(c2, d2, c, d, 2 * Cardinality(MutDim))
     /\ p' = [p EXCEPT ![c][d] = [k |-> "l", c |-> c2, d |-> d2]]
-    /\ UNCHANGED <<kind, Tin, T0, T, nd>>
+    /\ UNCHANGED <<kind, Tin, T0, T, nd, src>>
     /\ Ok([n |-> "SetLink", c |-> c, d |-> d, c2 |-> c2, d2 |-> d2])
 
+\* new = copy.copy(component c): __copy__ = unlink ; deepcopy ; put the same links back on both
+Copy(c) ==
+    /\ src = 0 /\ c \in Base
+    /\ src' = c
+    /\ kind' = [kind EXCEPT ![3] = kind[c]] /\ Tin' = [Tin EXCEPT ![3] = Tin[c]] /\ T0' = [T0 EXCEPT ![3] = T0[c]]
+    /\ T' = [T EXCEPT ![3] = T[c]] /\ nd' = [nd EXCEPT ![3] = nd[c]]
+    /\ p' = [p EXCEPT ![3] = p[c]]          \* values duplicated; link entries are the same (component, dimension) pairs
+    /\ Ok([n |-> "Copy", c |-> c])
+
 Init ==
-    /\ kind \in {[c \in Comp |-> k[c]] : k \in KindChoices}
-    /\ \E tc \in TempChoices : /\ Tin = [c \in Comp |-> tc[2 * c - 1]]
-                               /\ T0  = [c \in Comp |-> tc[2 * c]]
+    /\ \E k \in KindChoices : kind = [c \in Comp |-> IF c = 3 THEN "custom" ELSE k[c]]
+    /\ \E tc \in TempChoices : /\ Tin = [c \in Comp |-> IF c = 3 THEN 1 ELSE tc[2 * c - 1]]
+                               /\ T0  = [c \in Comp |-> IF c = 3 THEN 1 ELSE tc[2 * c]]
     /\ T = T0
     /\ p = [c \in Comp |-> [d \in MutDim |-> Nominal(c, d)]]
     /\ nd = [c \in Comp |-> Zero]
+    /\ src = 0
     /\ act = [n |-> "Init"] /\ err = ""
 
 Next ==
     \/ \E c \in Comp, t \in Temp : SetTemperature(c, t)
+    \/ \E c \in Comp, t \in Temp, k \in RampSteps : Ramp(c, t, k)
     \/ \E c \in Comp, d \in MutDim, v \in 1..NV, cold \in BOOLEAN, retain \in BOOLEAN : SetDim(c, d, v, cold, retain)
-    \/ \E lp \in LinkPairs : SetLink(lp[1], lp[2], lp[3], lp[4])
+    \/ \E c \in Comp, lp \in LinkPairs : SetLink(c, lp[2], lp[3], lp[4])
+    \/ \E c \in Base : Copy(c)
 
 Spec == Init /\ [][Next]_<<state, act, err>>
 
 (* ---------------------------------- the property, clause by clause ---------------------------------- *)
 IsEntry(x) == \/ /\ DOMAIN x = {"k", "bc", "bd", "b", "e"} /\ x.k = "v" /\ x.bc \in Comp /\ x.bd \in MutDim
                  /\ x.b \in 0..NV /\ MIsVec(x.e, NA, 1)
-              \/ /\ DOMAIN x = {"k", "c", "d"} /\ x.k = "l" /\ x.c \in Comp /\ x.d \in MutDim
-TypeOK == /\ kind \in [Comp -> Kinds] /\ Tin \in [Comp -> Temp] /\ T0 \in [Comp -> Temp] /\ T \in [Comp -> Temp]
+              \/ /\ DOMAIN x = {"k", "c", "d"} /\ x.k = "l" /\ x.c \in Base /\ x.d \in MutDim
+TypeOK == /\ src \in 0..2
+          /\ kind \in [Comp -> Kinds] /\ Tin \in [Comp -> Temp] /\ T0 \in [Comp -> Temp] /\ T \in [Comp -> Temp]
           /\ \A c \in Comp : \A d \in MutDim : IsEntry(p[c][d])
           /\ \A c \in Comp : MIsVec(nd[c], NA, 2)
           /\ err \in {"", "RuntimeError"}
 
 \* no cyclic links: every read terminates
-LinksAcyclic == \A c \in Comp, d \in MutDim : p[c][d].k = "l" => ~Reaches(p[c][d].c, p[c][d].d, c, d, 2 * Cardinality(MutDim))
+LinksAcyclic == \A c \in Live, d \in MutDim : p[c][d].k = "l" => ~Reaches(p[c][d].c, p[c][d].d, c, d, 2 * Cardinality(MutDim))
 
 \* "through any sequence of intermediate temperatures ... the end state depends only on the final temperature":
 \* the accumulated number-density factor equals the factor of the direct jump Thot(construction) -> T
-PathIndependent == \A c \in Comp : nd[c] = DensityReduction(c, T0[c], T[c])
+PathIndependent == \A c \in Live : nd[c] = DensityReduction(c, T0[c], T[c])
 
 \* "its number densities shrink by the same factor": relative to construction, nd = (f(T0)/f(T))^2 for solids
 DensityShrinksBySquare ==
-    \A c \in Comp : kind[c] = "solid" => nd[c] = MScale(0 - 2, MSub(U(c, T[c]), U(c, T0[c])))
+    \A c \in Live : kind[c] = "solid" => nd[c] = MScale(0 - 2, MSub(U(c, T[c]), U(c, T0[c])))
 
 \* "every thermally expanding dimension equals its cold input value times the linear expansion factor from
 \*  input to current temperature" (unlinked lengths of expanding solids), and counts do not change
 DimensionLaw ==
-    \A c \in Comp : \A d \in Dim :
+    \A c \in Live : \A d \in Dim :
         LET x == P(c, d)  h == Hot(c, d)  cl == Cold(c, d)  own == MSub(U(c, T[c]), U(c, Tin[c])) IN
         x.k = "v" =>
             /\ cl = [r |-> "ok", bc |-> x.bc, bd |-> x.bd, b |-> x.b, e |-> x.e]
@@ -230,13 +275,13 @@ DimensionLaw ==
 
 \* "its area grows by the square of the material's linear expansion factor"
 AreaGrowsBySquare ==
-    \A c \in Comp : kind[c] = "solid" /\ (\A d \in MutDim : p[c][d].k = "v") =>
+    \A c \in Live : kind[c] = "solid" /\ (\A d \in MutDim : p[c][d].k = "v") =>
         AreaQ(c) = [r |-> "ok", e |-> MScale(2, MSub(U(c, T[c]), U(c, Tin[c])))]
 
 \* "conserves its mass per unit height": for a solid whose lengths all follow its own factor, the mass per unit
 \* height (per unit cold area) does not depend on the current temperature -- it is the value at construction
 MassPerHeightConserved ==
-    \A c \in Comp : kind[c] = "solid" =>
+    \A c \in Live : kind[c] = "solid" =>
         LET m == MPH(c) IN m.r = "ok" => m.e = MScale(2, MSub(U(c, T0[c]), U(c, Tin[c])))
 
 \* "(and setting a hot dimension reads back that value)" -- also through a retained link, and for cold sets
@@ -247,7 +292,7 @@ ReadBack ==
 
 \* "a dimension linked to another component always equals that component's current dimension"
 LinkEquality ==
-    \A c \in Comp, d \in MutDim :
+    \A c \in Live, d \in MutDim :
         LET x == p[c][d] IN
         x.k = "l" =>
             /\ Hot(c, d) = Hot(x.c, x.d)
@@ -256,19 +301,34 @@ LinkEquality ==
 
 \* "fluids and custom materials keep their dimensions"
 FluidsAndCustomKeepDimensions ==
-    \A c \in Comp : NoExpansion(c) =>
+    \A c \in Live : NoExpansion(c) =>
         /\ TEFQ(c) = [r |-> "ok", e |-> Zero]
         /\ \A d \in Dim : P(c, d).k = "v" => Hot(c, d) = Cold(c, d) /\ \A t \in Temp : Q(c, d, t, FALSE) = Cold(c, d)
 
 \* a material without a correlation refuses exactly when the temperature differs from the input temperature
 InertRefusesOffInput ==
-    \A c \in Comp : kind[c] = "inert" =>
+    \A c \in Live : kind[c] = "inert" =>
         /\ (T[c] = Tin[c] => TEFQ(c) = [r |-> "ok", e |-> Zero])
         /\ (T[c] # Tin[c] => TEFQ(c) = Refused /\ AreaQ(c) = Refused)
         /\ nd[c] = Zero
 
 \* a refused call leaves everything as it was
 RefusalsChangeNothing == [][err' # "" => UNCHANGED state]_<<state, act, err>>
-\* construction parameters never change
-ConstructionFixed == [][UNCHANGED <<kind, Tin, T0>>]_<<state, act, err>>
+\* construction parameters never change, the duplicate stays the duplicate of its source
+ConstructionFixed == [][/\ \A c \in Live : kind'[c] = kind[c] /\ Tin'[c] = Tin[c] /\ T0'[c] = T0[c]
+                        /\ (src # 0 => src' = src)]_<<state, act, err>>
+
+\* why intermediate temperatures do not matter: for ARBITRARY temperatures a, m, b (atoms are abstract positive reals)
+\* the reduction a -> m followed by m -> b is the reduction a -> b; by induction every ramp telescopes
+Composes == \A c \in Live : \A a, m, b \in Temp :
+                MAdd(DensityReduction(c, a, m), DensityReduction(c, m, b)) = DensityReduction(c, a, b)
+
+\* "a dimension linked to another component always equals that component's current dimension" for a duplicate:
+\* right after copy.copy the duplicate reads exactly what its source reads, its links point at the two constructed
+\* components themselves (LinkEquality then makes it follow them for ever), and the source is untouched
+CopyIsFaithful ==
+    act.n = "Copy" =>
+        /\ T[3] = T[src] /\ nd[3] = nd[src] /\ kind[3] = kind[src] /\ Tin[3] = Tin[src]
+        /\ \A d \in Dim : Hot(3, d) = Hot(src, d) /\ Cold(3, d) = Cold(src, d)
+CopyLeavesOthers == [][act'.n = "Copy" => \A c \in Base : T'[c] = T[c] /\ nd'[c] = nd[c] /\ p'[c] = p[c]]_<<state, act, err>>
 =====================================================================================================
